@@ -1,7 +1,7 @@
 """C10 -- a variable font reproduces each master at that master's location."""
 import copy, io, traceback
 from fractions import Fraction as Fr
-from harness import dsgen, geom
+from harness import dsgen, geom, gterm as G
 from harness.fonts import build_font, jsonable
 from harness.otl import Layout
 
@@ -11,7 +11,9 @@ LEVEL_TEXT = ("PARTIAL. Proved in Coq: in the variable kerning writer every sour
               "value; and for ANY number of masters and axes the variation model (getDeltas + interpolateFromDeltas, Interp/VarModel.v) "
               "reproduces every master at its location whenever the regions' scalars at the master locations are unit lower "
               "triangular -- a hypothesis evaluated on the real VariationModel of every generated family, with the Gallina deltas "
-              "and interpolation compared exactly. Everything else in a variable build -- gvar/HVAR/CFF2 encoding, feature "
+              "and interpolation compared exactly. collapse_varscalar (a variable value written as a constant) is transcribed "
+              "(Interp/Collapse.v): a collapsed value is the value of every master, and a model whose masters all have it yields it "
+              "everywhere -- compared exactly with the real function on value lists agreeing pairwise in every pattern. Everything else in a variable build -- gvar/HVAR/CFF2 encoding, feature "
               "variation tables -- is varLib/feaLib (environment), so the property is observed on the implementation: each compiled "
               "variable font (TrueType and CFF2, layout merged per master or built as variable features, one and two axes, "
               "several variable fonts per designspace) is instantiated with fontTools.varLib.instancer at every full master's "
@@ -115,7 +117,38 @@ def sparse_flatten_section(ctx):
                     break
 
 
+def collapse_section(ctx):
+    """util.collapse_varscalar against Interp/Collapse.v: value lists of 1-5 masters in source order, agreeing pairwise in every
+    pattern (all equal, first = last only, first = second only, none)"""
+    from fontTools.feaLib.variableScalar import VariableScalar
+    from ufo2ft.util import collapse_varscalar
+    rng = ctx.subrng("collapse")
+    cases, meta = [], []
+    for i in range(ctx.budget(120, 800)):
+        n = rng.randint(1, 5)
+        pool = rng.sample([-70, -40, 0, 12, 250, 270], rng.randint(1, 2))
+        values = [rng.choice(pool) for _ in range(n)]
+        thr = [0, 0, 0, 5][i % 4]
+        vs = VariableScalar()
+        for k, v in enumerate(values):
+            vs.add_value({"wght": 100 + 100 * k}, v)
+        got = collapse_varscalar(vs, threshold=thr)
+        const = None if isinstance(got, VariableScalar) else got
+        ctx.count(); ctx.klass("collapse: %s" % ("collapsed" if const is not None else "kept variable"))
+        if n >= 3 and len(set(values)) > 1:
+            ctx.nontriv(("cl", i, ctx.scale))
+        cases.append(G.tup(G.lst([geom.g_q(Fr(v)) for v in values], "Qc"), geom.g_q(Fr(thr)), G.opt(None if const is None else geom.g_q(Fr(const)), "Qc")))
+        meta.append({"values_in_source_order": values, "threshold": thr, "implementation": const})
+    vals = ctx.coq_eval("From Coq Require Import QArith Qcanon.\nFrom U2F Require Import Base.Prelude Geometry.Model Interp.Collapse.",
+                        "fun c : (list Qc * Qc * option Qc) => let '(vs, t, got) := c in if option_eqb qc_eqb (collapse vs t) got then 3 else 2",
+                        cases, chunk=200, tag="Collapse")
+    for v, case in zip(vals, meta):
+        if v is not None and v != 3:
+            ctx.corr_mismatch(case, "Gallina collapse (Interp/Collapse.v) differs from util.collapse_varscalar")
+
+
 def explore(ctx):
+    collapse_section(ctx)
     from harness.props.c19 import varmodel_section
     varmodel_section(ctx, "c10")
     sparse_flatten_section(ctx)
